@@ -66,6 +66,12 @@ func (s *session) Connection() net.Conn {
 }
 
 func (s *session) Decrypter() crypto.Decrypter {
+	// The handler of the pair-verify finish request, the read which net/http
+	// keeps pending and the writers of events call these methods from different
+	// goroutines: without the lock a half-written interface value is installed.
+	s.mu.Lock()
+	defer s.mu.Unlock()
+
 	// Return the next cryptographer when possible
 	// This allows sessions to switch encryption
 	if s.nextCryptographer != nil {
@@ -77,6 +83,9 @@ func (s *session) Decrypter() crypto.Decrypter {
 }
 
 func (s *session) Encrypter() crypto.Encrypter {
+	s.mu.Lock()
+	defer s.mu.Unlock()
+
 	return s.cryptographer
 }
 
@@ -92,7 +101,9 @@ func (s *session) SetCryptographer(c crypto.Cryptographer) {
 	// Temporarily set the cryptographer as the nextCryptographer
 	// The nextCryptographer is used the next time Decrypter() is called.
 	// Otherwise the Encrypter() encrypts differently than the previous Decrypter()
+	s.mu.Lock()
 	s.nextCryptographer = c
+	s.mu.Unlock()
 }
 func (s *session) SetPairSetupHandler(c ContainerHandler) {
 	s.pairStartHandler = c
